@@ -14,7 +14,7 @@ CLAIMS = {
              "estimate <= true free-space minimum number of bends from an independent search oracle (admissibility clause of C05). "
              "The bend count charged by estimatedCostSpecific is proved admissible against bends' contract (call-site preconditions checked); Polygon::simplify drops a route point "
              "iff exactly collinear (tolerance 0 demanded at the call site), so bends survive into the display route; estimatedCost never exceeds the estimate through any arrival candidate "
-             "(loop contract; costs as machine integers). Optimality of the search is undecided residue.",
+             "(loop contract; costs as machine integers); bounded: end points on the first/last scan position get the outer-edge visibility fix. Optimality of the search is undecided residue.",
         note=BASE_TB + "tools/minb.py search oracle. Residue NOT claimed: visibility graph contains an optimal path, pruning, axis-parallel segments, grid-oracle agreement.",
         tech="CBMC code contracts (goto-instrument --dfcc --enforce-contract) on verbatim C++ slices",
         ref="5/C05"),
@@ -46,7 +46,7 @@ CLAIMS["C20"] = dict(
     cat="proof",
     text="Value-determinism of the ordering kernels through which allocation addresses could reach results: CmpNodePos, compare_events, CompareConstraints, ANodeCmp are "
          "proved (all field values) to return a stated function of values and to evaluate no relational comparison of pointers to different objects (CBMC same-object check); "
-         "PseudoRandom::getNext is a function of the seed only and ConstrainedFDLayout::offsetDir reads/writes no generator state outside its own layout object (frame condition); transposition symmetry of the A* turn-pruning block and translation invariance of bends (relational, two calls of the real code). "
+         "PseudoRandom::getNext is a function of the seed only and ConstrainedFDLayout::offsetDir reads/writes no generator state outside its own layout object (frame condition); bounded: dijkstra writes every entry of a distance row (no heap garbage reaches the layout); transposition symmetry of the A* turn-pruning block and translation invariance of bends (relational, two calls of the real code). "
          "Whole-run bit-identity, scene symmetries of whole routes and permutation invariance of VPSC are undecided residue.",
     note=BASE_TB + "CmpNodePos precondition 'distinct nodes have distinct variable ids' is by inspection of the callers. Address tie-breaks in CmpVertInf, CmpVisEdgeRotation's "
          "fallback and ActionInfo::operator< (ConnectionPinChange) are listed as not under obligation.",
@@ -89,7 +89,7 @@ CLAIMS["C10"] = dict(
     text="Write-back kernel of nudging (NudgingShiftSegment::updatePositionsFromSolver, the only place nudging writes a route) under contract: a fixed segment writes "
          "nothing (empty frame, so first/last points stay put); the written position is the solver position clamped into [minSpaceLimit,maxSpaceLimit]; the loop body "
          "writes exactly one coordinate of one indexed point and keeps the route's size (unbounded, one arbitrary index); whole function bounded (<= 4 indexes); "
-         "bounded (<= 4 segments): a nudging region is closed under overlapsWith. "
+         "bounded (<= 4 segments): a nudging region is closed under overlapsWith; bounded (<= 2+2 checkpoints): channel limits respect checkpoints and bend spans together. "
          "Which segments are fixed, ordering, channel computation, grouping and the resulting separation are undecided residue.",
     note=BASE_TB + "Assumed read-only contract for ConnRef::displayRoute(); Point::operator[]'s `?:` reference return rewritten to if/return (cbmc crash work-around); "
          "body+bounded-loop split for the write loop (DESIGN 2.9).",
@@ -102,7 +102,7 @@ CLAIMS["C17"] = dict(
          "floyd_warshall template equals an independent Bellman-Ford oracle, with zero diagonal, symmetry and the exact sentinel for unreachable pairs. dijkstra/johnsons "
          "(pairing heap) could not be brought within CBMC's reach and are not covered. Of the layout distance matrix only the two loop bodies of computePathLengths are under "
          "contract (unbounded for one index / pair: non-positive lengths become 1; reachable pairs scaled by idealLength and marked 2, unreachable keep the sentinel and 0), plus a bounded tail job: after the "
-         "post-processing D is not written again.",
+         "post-processing D is not written again; bounded (3 nodes): dijkstra's main loop writes every entry of its output row.",
     note=BASE_TB + "Template instantiated at an integer type (machine arithmetic treated as mathematical); bound stated per job; evidence level 'other' with the bounded jobs "
          "listed and obligations/discharged left at zero.",
     tech="CBMC bounded model checking of the verbatim template slice (concrete loop bounds, unwinding complete) against a Bellman-Ford oracle; native exhaustive replay",
